@@ -1,6 +1,6 @@
 /-
   Driver for the ClientRefuse model.  One request = one history:
-    hist <ev>…   ev = x11:0|1 | agent | fwd:0|1 | cancel | g:<kindhex>:<0|1> | o:<kindhex>:<chanid> | r:<keyhex>:<0|1>
+    hist <ev>…   ev = x11:0|1 | agent | fwd:0|1 | fwdz:0|1 | cancel | g:<kindhex>:<0|1> | o:<kindhex>:<chanid> | r:<keyhex>:<0|1>
     → replies joined by ',' : - | rf | rs | of:<chanid>:<reason> | os:<chanid> | cf | cs   (one per event)
 -/
 import PV.Model.ClientRefuse
@@ -14,6 +14,7 @@ def parseEv (t : String) : Option Event :=
   | ["x11", g] => (parseB g).map fun b => .act (.requestX11 b)
   | ["agent"] => some (.act .requestForwardAgent)
   | ["fwd", g] => (parseB g).map fun b => .act (.requestPortForward b)
+  | ["fwdz", g] => (parseB g).map fun b => .act (.requestPortForward b)   -- port 0: the server allocates the port
   | ["cancel"] => some (.act .cancelPortForward)
   | ["g", k, w] => do let kb ← ofHex? k; let wb ← parseB w; pure (.msg (.globalRequest kb wb))
   | ["o", k, c] => do let kb ← ofHex? k; let n ← c.toNat?; pure (.msg (.channelOpen kb n))
